@@ -273,7 +273,15 @@ func scenarios(fn *ssa.Function) []degenerate {
 		}
 		// channel view: receiver value with a Buffer pointer field
 		if n, ok := p.Type().(*types.Named); ok && n.Obj().Name() == "C" {
-			bufs = append(bufs, p.Name()+".Buffer")
+			fld := "Buffer"
+			if st, isSt := n.Underlying().(*types.Struct); isSt {
+				for i := 0; i < st.NumFields(); i++ {
+					if pt, isP := st.Field(i).Type().(*types.Pointer); isP && isBufferType(pt.Elem()) {
+						fld = st.Field(i).Name()
+					}
+				}
+			}
+			bufs = append(bufs, p.Name()+"."+fld)
 		}
 	}
 	var out []degenerate
